@@ -138,7 +138,7 @@ def _has_quant(e):
 
 def _solve_one(i):
     ob = _OBS[i]
-    timeout_ms = int(_CFG.get("timeout_ms", 20000) * (getattr(ob, "budget", 1) or 1))
+    timeout_ms = min(int(_CFG.get("timeout_ms", 20000) * (getattr(ob, "budget", 1) or 1)), max(120000, int(_CFG.get("timeout_ms", 20000))))
     t0 = time.time()
     if getattr(ob, "forced", None):   # verdict of an abstract interpretation that could not decide (possible, not definite)
         return (i, ob.forced, 0.0, "alias-ai", {"unsat": "no effect outside the frame in the may-alias abstraction",
@@ -168,6 +168,14 @@ def _solve_one(i):
                 r = z3.unknown
             if r != z3.unknown:
                 break
+    if r == z3.unknown and not ob.expect_sat and _CFG.get("cvc5", True) and timeout_ms > 12000:
+        # a medium z3 attempt before the (long) cvc5 one: many queries need 5-10 s of z3 and nothing cvc5 can do
+        s.set("random_seed", 0)
+        s.set("timeout", 12000)
+        try:
+            r = s.check()
+        except z3.Z3Exception:
+            r = z3.unknown
     if r == z3.unknown and not ob.expect_sat and _CFG.get("cvc5", True):
         r2, d2 = run_cvc5(s.to_smt2(), max(5, timeout_ms // 1000))
         if r2 == "unsat":
